@@ -105,8 +105,29 @@ impl PagesRc {
         Ok(PagesRc(update.create(PagesNode::Tree(tree))?))
     }
 }
+/// How many page tree nodes may hang above each other (`PageTree::page` descends 16 levels).
+const MAX_PAGE_TREE_ANCESTORS: usize = 64;
+
 impl Object for PagesRc {
     fn from_primitive(p: Primitive, resolve: &impl Resolve) -> Result<PagesRc> {
+        // A node is loaded together with all its ancestors, one load inside the other. How many there are is up
+        // to the file (and /Parent references may form a cycle): count them before starting. The count does not
+        // depend on what is cached already.
+        if let Primitive::Reference(mut r) = p {
+            for level in 0 .. {
+                if level >= MAX_PAGE_TREE_ANCESTORS {
+                    bail!("more than {} page tree nodes above each other", MAX_PAGE_TREE_ANCESTORS);
+                }
+                match resolve.resolve(r) {
+                    Ok(Primitive::Dictionary(dict)) => match dict.get("Parent") {
+                        Some(&Primitive::Reference(parent)) => r = parent,
+                        _ => break
+                    }
+                    // (the load reports it)
+                    _ => break
+                }
+            }
+        }
         let node = t!(RcRef::from_primitive(p, resolve));
         match *node {
             PagesNode::Leaf(_) => Err(PdfError::WrongDictionaryType {expected: "Pages".into(), found: "Page".into()}),
